@@ -283,7 +283,8 @@ fn c17_layouts() {
     let rt = rt();
     let mut rng = Rng(0x51ed_270b_9f4a_7c15);
     let mut cases = 0;
-    for n in [0usize, 1, 4] {
+    let deep = std::env::var("VERIF_COMPANION_DEEP").is_ok();
+    for n in (if deep { vec![0usize, 1, 2, 4, 7] } else { vec![0usize, 1, 4] }) {
         let chunks = sample_chunks(&mut rng, n);
         let nu = { let mut u: Vec<&Vec<u8>> = vec![]; for c in &chunks { if !u.contains(&c) { u.push(c); } } u.len() };
         let orders: Vec<Vec<usize>> = vec![(0..nu).collect(), (0..nu).rev().collect(), { let mut o: Vec<usize> = (0..nu).collect(); if nu > 2 { o.swap(0, 2); o.swap(1, nu - 1); } o }];
@@ -323,6 +324,38 @@ fn c17_layouts() {
                     }
                 }
             }
+        }
+    }
+    if deep {
+        // thorough tier: random layouts drawn from VERIF_SEED (chunk count 0..=12, random stored order, slack, gaps,
+        // per-chunk raw/brotli, hash length 4..=64, either magic, any recorded level, unknown fields)
+        let seed: u64 = std::env::var("VERIF_SEED").ok().and_then(|s| s.parse().ok()).unwrap_or(1);
+        let rounds: usize = std::env::var("VERIF_COMPANION_CASES").ok().and_then(|s| s.parse().ok()).unwrap_or(3000);
+        let mut r = Rng(0x17de_e917_0000_0001 ^ seed.wrapping_mul(0x9e37_79b9_7f4a_7c15));
+        for k in 0..rounds {
+            let n = r.below(13) as usize;
+            let chunks = sample_chunks(&mut r, n);
+            let nu = { let mut u: Vec<&Vec<u8>> = vec![]; for c in &chunks { if !u.contains(&c) { u.push(c); } } u.len() };
+            let mut order: Vec<usize> = (0..nu).collect();
+            for i in (1..nu).rev() { let j = r.below(i as u64 + 1) as usize; order.swap(i, j); }
+            let lay = Layout { legacy_magic: r.below(2) == 0, slack: [0usize, 0, 1, 9, 100][r.below(5) as usize], order, gap: r.below(6) as usize,
+                               compress: (0..nu).map(|_| r.below(2) == 0).collect(), hash_len: 4 + r.below(61) as usize };
+            let brotli = r.below(3) != 0;
+            let level = [6u32, 0, 12, u32::MAX, 1, 11][r.below(6) as usize];
+            let unknown = r.below(2) == 0;
+            let built = encode_ext(&chunks, &lay, default_params(), brotli, level, unknown);
+            match rt.block_on(Archive::try_init(IoReader::new(Cursor::new(built.bytes.clone())))) {
+                Ok(a) => { let got = observed(&a); if got != built.want { witness("C17", "an opened format-conforming archive reports values that differ from the encoder's inputs", format!("random layout #{} (seed {}): {:?} chunks {} level {} unknown_fields {} reported {:?} expected {:?}", k, seed, lay, n, level, unknown, got, built.want)); } }
+                Err(e) => witness("C17", "a format-conforming archive is not opened", format!("random layout #{} (seed {}): {:?} chunks {} level {} unknown_fields {} error {:?}", k, seed, lay, n, level, unknown, e)),
+            }
+            let local = rt.block_on(clone_with(IoReader::new(Cursor::new(built.bytes.clone()))));
+            if local.as_ref().ok() != Some(&built.source) { witness("C17", "local clone of a format-conforming archive differs from the source / fails", format!("random layout #{} (seed {}): {:?} chunks {} result {:?}", k, seed, lay, n, local.as_ref().map(|v| v.len()))); }
+            if k % 10 == 0 {
+                let bytes = built.bytes.clone();
+                let rr = rt.block_on(async { let (reader, _log) = http_reader_for(&bytes, Misbehave::No).await; clone_with(reader).await });
+                if rr.as_ref().ok() != Some(&built.source) { witness("C17", "HTTP clone of a format-conforming archive differs from the source / fails", format!("random layout #{} (seed {}): {:?} chunks {} result {:?}", k, seed, lay, n, rr.as_ref().map(|v| v.len()))); }
+            }
+            cases += 1;
         }
     }
     println!("COMPANION-OK cases={}", cases);
@@ -396,7 +429,7 @@ fn c04_corruptions() {
         for len in 0..n { check("clone of a truncated archive reports success with different output", built.bytes[..len].to_vec(), format!("truncated to {} of {} bytes (header {} bytes)", len, n, built.header_len)); cases += 1; }
         // every bit of the header, sampled bits of the payload
         for pos in 0..n {
-            let bits: Vec<u8> = if pos < built.header_len { (0..8).collect() } else { vec![(pos % 8) as u8] };
+            let bits: Vec<u8> = if pos < built.header_len || std::env::var("VERIF_COMPANION_DEEP").is_ok() { (0..8).collect() } else { vec![(pos % 8) as u8] };
             for bit in bits {
                 let mut b = built.bytes.clone();
                 b[pos] ^= 1 << bit;
